@@ -92,41 +92,39 @@ Theorem C08_order_independent : forall ds ds' st ft, Inv st -> Rel st ft ->
 Proof. exact order_independent_M. Qed.
 Print Assumptions C08_order_independent.
 
-(* (8) Histories: every sequence of {read a code object, Code.Compile it, evaluate it} whose definitions
-   are inside the guard gives, evaluation by evaluation, S's outcome (equal where S is binding; never a
-   value where S has none), from the empty state. *)
-Theorem C08_history_refines : forall n ops, guard_ops n minit ops = true ->
-  Forall2 osim (runS n sinit ops) (runM n minit ops).
+(* (8) Histories: EVERY sequence of {read a code object, Code.Compile it, evaluate it} - any definitions and
+   redefinitions, any bodies, in any order - gives, evaluation by evaluation, S's outcome (equal where S is
+   binding; never a value where S has none), from the empty state.  No guard: this is the statement that was
+   refuted for the unrepaired code (C08_refinement_needs_guard_refuted, removed with repo_fixes/C08-3). *)
+Theorem C08_history_refines : forall n ops, Forall2 osim (runS n sinit ops) (runM n minit ops).
 Proof. exact history_refines. Qed.
 Print Assumptions C08_history_refines.
 
 (* (9) The witnesses of the repaired findings C08-stale-lambda-after-forward-reference and
-   C08-stale-lambda-after-second-definition are inside the guard and M gives S's answers (2 and 3; the
-   unrepaired code gave 1 and 2). *)
+   C08-stale-lambda-after-second-definition: M gives S's answers (2 and 3; the unrepaired code gave 1 and 2). *)
 Theorem C08_stale_lambda_repaired :
-  guard_ops 50 minit stale_ops = true /\ guard_ops 50 minit stale_ops2 = true /\
   runM 50 minit stale_ops = [(Val (VInt 2%Z), [])] /\ runS 50 sinit stale_ops = [(Val (VInt 2%Z), [])] /\
   runM 50 minit stale_ops2 = [(Val (VInt 3%Z), [])] /\ runS 50 sinit stale_ops2 = [(Val (VInt 3%Z), [])].
 Proof. exact stale_lambda_repaired. Qed.
 Print Assumptions C08_stale_lambda_repaired.
-(* Outside the guard the faithful model violates S (= known findings). *)
 (* C08-undefined-args-first: a compiled call of an undefined function evaluates its arguments before
    signalling undefined-function (the list form signals first), so M = S cannot be claimed for outcomes
    where S says undefined-function. *)
 Theorem C08_undefined_call_equal_refuted :
-  ~ (forall n ops, guard_ops n minit ops = true -> runM n minit ops = runS n sinit ops).
+  ~ (forall n ops, runM n minit ops = runS n sinit ops).
 Proof. exact undefined_call_equal_refuted. Qed.
 Print Assumptions C08_undefined_call_equal_refuted.
 
-(* C08-bare-symbol-body: a bare symbol as a body form that is neither a parameter nor an existing package
-   variable is bound, when the defun is evaluated, to a package variable created on the spot: the function
-   then ignores a caller's binding of that name (and answers the "unbound" marker object instead of
-   signalling); evaluating the same defun again leaves the symbol alone.  Same code object evaluated twice:
-   M gives [1; 5] where S gives [5; 5].  Guard clause G3 (g_body). *)
-Theorem C08_bare_body_symbol_refuted :
-  exists ops a b, runS 50 sinit ops = [a; a] /\ runM 50 minit ops = [b; a] /\ comparable (fst a) = true /\ a <> b.
-Proof. exact bare_body_symbol_refuted. Qed.
-Print Assumptions C08_bare_body_symbol_refuted.
+(* The witnesses of the repaired finding C08-bare-symbol-body (repo_fixes/C08-4): a bare symbol as a body form is
+   a variable reference looked up at call time.  (defun f (x) v) (defun g (v) (f 0)) (defvar v 1) (g 5), the
+   code object evaluated twice: [5; 5] in M as in S (the unrepaired code: [1; 5]); (defun f (x) nov) (f 0):
+   unbound-variable (the unrepaired code returned the marker object). *)
+Theorem C08_bare_body_symbol_repaired :
+  runS 50 sinit bare_ops = [(Val (VInt 5%Z), []); (Val (VInt 5%Z), [])] /\
+  runM 50 minit bare_ops = [(Val (VInt 5%Z), []); (Val (VInt 5%Z), [])] /\
+  runS 50 sinit bare_ops2 = [(Err EUnbound, [])] /\ runM 50 minit bare_ops2 = [(Err EUnbound, [])].
+Proof. exact bare_symbol_repaired. Qed.
+Print Assumptions C08_bare_body_symbol_repaired.
 
 (* (10) The invariant holds initially; the hypotheses are satisfiable in a non-trivial reachable state
    (forward reference patched, compiled slots holding both the registered and a newer Lambda). *)
